@@ -25,7 +25,7 @@ LEVEL_NOTE = 'partial'
 
 def plan(tier):
     q = tier == 'quick'
-    return [('hashseed', 14 if q else 150, {}), ('history', 60 if q else 1200, {})]
+    return [('hashseed', 14 if q else 150, {}), ('history', 60 if q else 1200, {}), ('volstr', 300 if q else 5000, {})]
 
 
 def search_plan(tier, disagreements):
@@ -74,8 +74,40 @@ def fresh(text, args, hashseed):
         shutil.rmtree(d, ignore_errors=True)
 
 
+def volstr_case(seed, rng, ctx):
+    """VolumeT4.__str__ vs the Lean model, the sets built in a shuffled insertion order"""
+    from t4_geom_convert.Kernel.Volume.VolumeT4 import VolumeT4
+    ids = rng.sample(range(1, 3000), rng.randint(0, 9)) + rng.sample(range(100000, 100090), rng.randint(0, 3))
+    rng.shuffle(ids)
+    k = rng.randint(0, len(ids))
+    pl, mi = ids[:k], ids[k:]
+    op = rng.choice([None, None, 'UNION', 'INTE'])
+    opids = rng.sample(range(1, 500), rng.randint(1, 4)) if op else []
+    fict = rng.random() < 0.3
+    code = str(VolumeT4(pluses=pl, minuses=mi, ops=(op, opids) if op else None, fictive=fict))
+    pl2, mi2 = list(pl), list(mi)
+    rng.shuffle(pl2)
+    rng.shuffle(mi2)
+    code2 = str(VolumeT4(pluses=pl2, minuses=mi2, ops=(op, opids) if op else None, fictive=fict))
+    resp = ctx['drv'].ask('volline %d %s %s / %s / %s' % (fict, op or '-', ' '.join(map(str, pl)), ' '.join(map(str, mi)),
+                                                          ' '.join(map(str, opids))))
+    model = lean.unhx(resp.split()[1]) if resp.startswith('ok ') else resp
+    fails = []
+    rp = {'pluses': pl, 'minuses': mi, 'op': op, 'opids': opids, 'fictive': fict}
+    if model != code:
+        fails.append(fail('disagreement', 'VolumeT4.__str__: code %r / model %r' % (code, model), {'stream': 'volstr'}, rp))
+    if code2 != code:
+        fails.append(fail('violation', 'VolumeT4.__str__ depends on the insertion order: %r / %r' % (code, code2),
+                          {'stream': 'volstr', 'class': 'order-dependent'}, rp))
+    key = h((tuple(pl), tuple(mi), op, tuple(opids), fict))
+    return dict(hashes=[key], nontrivial_hashes=[key] if len(ids) > 1 else [], dist={'volstr:ids': len(ids)},
+                sample={'line': code}, failures=fails)
+
+
 def run_case(stream, seed, ctx, params):
     rng = random.Random(seed)
+    if stream == 'volstr':
+        return volstr_case(seed, rng, ctx)
     d = gen_deck(rng)
     text = D.render_deck(d, D.Layout(rng))
     args = random_options(rng)
@@ -137,6 +169,10 @@ def run_case(stream, seed, ctx, params):
 
 def replay(payload, ctx):
     p = payload.get('payload') or {}
+    if 'pluses' in p:
+        from t4_geom_convert.Kernel.Volume.VolumeT4 import VolumeT4
+        return {'code': str(VolumeT4(pluses=p['pluses'], minuses=p['minuses'],
+                                     ops=(p['op'], p['opids']) if p['op'] else None, fictive=p['fictive']))}
     a = strip_header(fresh(p['deck'], p.get('args') or [], 0))
     b = strip_header(fresh(p['deck'], p.get('args') or [], p.get('hashseed', 1)))
     return {'violation': a != b}
